@@ -163,6 +163,31 @@ def _big_stack():
             pass
 
 
+ORACLE_SAMPLES = []      # (input line, extracted oracle's answer): re-evaluated inside Coq by crosscheck_extraction
+
+
+def crosscheck_extraction(n):
+    """the extracted OCaml oracle and Coq's own vm_compute must agree on a sample of this run's cases:
+    validates extraction + ocaml/main.ml, which are otherwise trusted. Returns the number checked."""
+    rng = random.Random(len(ORACLE_SAMPLES))
+    cand = [x for x in ORACLE_SAMPLES if len(x[0]) < 6000 and len(x[1]) < 6000 and '"' not in x[0] and '"' not in x[1]]
+    if not cand:
+        return 0
+    pick = rng.sample(cand, min(n, len(cand)))
+    d = os.path.join(BUILD, "cross")
+    os.makedirs(d, exist_ok=True)
+    f = os.path.join(d, "Cross.v")
+    with open(f, "w") as fh:
+        fh.write("From Coq Require Import String.\nFrom RashV Require Import Oracle.\nOpen Scope string_scope.\n")
+        for i, (a, b) in enumerate(pick):
+            fh.write('Example x%d : run_line "%s" = "%s". Proof. vm_compute. reflexivity. Qed.\n' % (i, a, b))
+    build_coq(["theories/Oracle.vo"])
+    rc, o, e = sh("timeout 600 coqc -noglob -Q %s/theories RashV %s" % (COQ, f), 630, cwd=d)
+    if rc != 0:
+        raise BrokenTie("extraction cross-check: the OCaml oracle and Coq's vm_compute disagree (or the check failed): " + (o + e)[-1500:])
+    return len(pick)
+
+
 def run_oracle(lines, timeout=900):
     """lines: list of s-expression strings -> list of result strings (same order)"""
     if not lines:
@@ -193,6 +218,11 @@ def run_oracle(lines, timeout=900):
         if outs[i] is None or len(outs[i]) != len(p):
             raise BrokenTie("oracle shard failed (%s results for %d cases)" % (None if outs[i] is None else len(outs[i]), len(p)))
         res.extend(outs[i])
+    # keep a small reservoir of (case, answer) pairs for the in-Coq cross-check
+    step = max(1, len(lines) // 40)
+    for i in range(0, len(lines), step):
+        if len(ORACLE_SAMPLES) < 400:
+            ORACLE_SAMPLES.append((lines[i], res[i]))
     return res
 
 
